@@ -20,6 +20,17 @@ NOTES = {
  "C17": "first missed; rule C04 R2b (scalar fields of the merged table are first-writer-wins), reported by C17 R4",
  "C10": "first missed; rule C10 R4 (plain fast path of text-string encoders only under is_ascii) added",
  "C16": "first missed; rule C16 R5 (white space between joined content streams) added",
+ "C14": "first missed; rule C14 R5 (heading -> title map filled by the same forward pass that reads it) added",
+ "C15": "first missed; rule C15 R3 (heading stack pruned by level comparison, not positionally) added",
+ "C02": "first missed; the rule accepted the repair's emptiness test wherever it stood: it must be evaluated after the flush that fills the map (C03 R4 / C02 R3)",
+ "C06": "first missed; rule C06 R3 (sibling agreement of the encrypt_metadata flag inputs in the two unlock routines) added",
+ "C19": "first missed; rule C19 R5 (the entry-slot counter advances on every entry line) added",
+ "C25": "reported by the fail-closed floor (table match not found) at first; made precise by rule C25 R6 (table keyed by the full code point)",
+ "C28": "first missed; rule C28 R4 (the sibling stride counts every descendant: must not read `open`) added",
+ "C05b": "round 2; first missed; rule C05 R8 (variant filters in the decryption walker name all four string-bearing variants) added",
+ "C08b": "round 2; caught by C08 R5 as first written (growth of the limited reader dominated by its limit test)",
+ "C09b": "round 2; first missed; rule C09 G1 (Reference arms format number and generation) added",
+ "C11b": "round 2; first missed; rule C11 R7 (fonts are installed under their resource name unconditionally) added",
 }
 for d in sorted(glob.glob(S + '/C*')):
     pid = os.path.basename(d)
